@@ -425,7 +425,7 @@ func (x *Exec) runStepOps(si int, ops []OpSpec, faults []FaultSpec) []*OpResult 
 		if err != nil {
 			panic(err)
 		}
-		res := &OpResult{Step: si, Proc: id, Op: ops[i], StartSeq: s.seq}
+		res := &OpResult{Step: si, Proc: id, Op: ops[i], StartSeq: s.curSeq()}
 		results[i] = res
 		op := &ops[i]
 		idx := i
@@ -436,6 +436,7 @@ func (x *Exec) runStepOps(si int, ops []OpSpec, faults []FaultSpec) []*OpResult 
 			res.Reqs = p.Proc.Reqs
 			res.StoreLog = p.Proc.StoreLog
 			res.Crashed = p.Proc.Crashed
+			res.EndSeq = s.curSeq()
 			s.mu.Unlock()
 			s.poke()
 		}()
@@ -451,7 +452,6 @@ func (x *Exec) runStepOps(si int, ops []OpSpec, faults []FaultSpec) []*OpResult 
 		return true
 	})
 	for _, r := range results {
-		r.EndSeq = s.seq
 		seen := map[string]bool{}
 		for _, q := range r.Reqs {
 			if q.Fault != "" && !seen[q.Fault] {
